@@ -501,6 +501,7 @@ def is_equilibrium_of(S, t, q, la_c, la_N, b0, atol, rtol):
 # =================================================================================================
 # workload: clamped cantilever
 # =================================================================================================
+KF_RIKS_FIRST = "Riks.solve/first-point-not-solved"
 TIME_LAWS = {"linear": lambda t: t, "quadratic": lambda t: t * t, "affine": lambda t: 0.25 + 0.75 * t, "const": lambda t: 1.0,
              "sine": lambda t: np.sin(0.5 * np.pi * t)}
 
@@ -1211,12 +1212,23 @@ def case_riks(spec, ctx):
             kw["scale_exponent"] = [None, 0.25, 1.0][int(rng.integers(3))]
         optkw = {"newton_atol": float(loguniform(rng, 1e-11, 1e-9)) * max(P["fscale"], 1e-3), "newton_rtol": float(loguniform(rng, 1e-11, 1e-9)),
                  "newton_max_iter": 20}
+        dead_load = sub == "cantilever" and rng.random() < 0.25
+        if dead_load:
+            # a load that does not vanish at load factor zero (dead weight plus a proportional load): the initial configuration
+            # is then NOT the equilibrium of load factor zero
+            P["loads"][0]["law"] = "affine"
+            ctx.cls("riks:load_does_not_vanish_at_zero_load_factor")
         S, rod = build_cantilever(P, np.eye(3), np.zeros(3))
         R, c, mcls = draw_motion(rng)
         twin = (P, R, c)
         det = {"problem": "cantilever", "formulation": form_name(form), "P": P, "riks": kw, "options": optkw}
         cantilever_classes(ctx, P)
         ctx.cls("riks:cantilever")
+        if dead_load:
+            # every consequence of the unsolved first point (the point itself, the first secant, an early silent end) is the
+            # recorded finding; without a dead load nothing is keyed
+            _viol = ctx.violation
+            ctx.violation = lambda site, what, detail=None, key=None: _viol(site, what, detail, key=key or KF_RIKS_FIRST)
         L = P["L"]
     else:  # contact: Riks' residual has no contact force; the property only asks that returned points are right and failures are loud
         P = draw_springs(rng, "point", True)
